@@ -481,6 +481,9 @@ func genC15(r *rand.Rand, tier string, idx int) *World {
 	if chance(r, 0.2) {
 		w.Extra["overlap"] = "1"
 	}
+	if chance(r, 0.25) {
+		w.Extra["secondTemplate"] = "1"
+	}
 	can := &CanaryDef{Replicas: pick(r, "1", "2", "3", "4", "25%", "50%", "100%"), Duration: "6h"}
 	switch r.IntN(5) {
 	case 0, 1:
@@ -516,7 +519,7 @@ func genC15(r *rand.Rand, tier string, idx int) *World {
 			tplB.AffinityKind = pick(r, "zoneA", "notPoolY", "hasZone")
 		}
 	}
-	e := &EDSDef{NS: "ns1", Name: "foo", Initial: "A", Templates: map[string]*TemplateDef{"A": tpl, "B": tplB}}
+	e := &EDSDef{NS: "ns1", Name: "foo", Initial: "A", Templates: map[string]*TemplateDef{"A": tpl, "B": tplB, "C": tplB.withLetter("C")}}
 	e.Strategy = StrategyDef{ReconcileFrequency: "10s", Canary: can, SlowStartIncrease: "100%", SlowStartInterval: "10s"}
 	w.EDS = []*EDSDef{e}
 	w.Extra["churn"] = fmt.Sprint(r.IntN(5))
@@ -626,6 +629,26 @@ func bodyC15(s *Sim) {
 			e.Spec.Strategy.Canary.Replicas = intOrStr(fmt.Sprint(n))
 			s.Store.ForceUpdate(e)
 			s.logf("env user.canary-replicas %d", n)
+		}
+		if i == 1 && s.W.Extra["secondTemplate"] == "1" {
+			// the template changes a second time while the canary runs: another replica set takes the
+			// canary over, on the nodes already selected (restarts since then do not matter for those)
+			if e := s.Store.GetEDS(def.NS, def.Name); e != nil && e.Status.Canary != nil {
+				for _, n := range e.Status.Canary.Nodes {
+					for _, p := range s.Store.Pods() {
+						if podNode(p) == n && isDaemonPod(p, def.NS, def.Name) && !terminating(p) && len(p.Status.ContainerStatuses) > 0 {
+							s.kRestart(p, "Error")
+							if pp := s.Store.GetPod(p.Namespace, p.Name); pp != nil {
+								s.kSettle(pp)
+							}
+						}
+					}
+				}
+				s.userSetTemplate(def.NS, def.Name, "C")
+				s.logf("env user.template C")
+				s.RunTask(CtrlEDS, key) // creates the replica set of C
+				s.Stats.NonVacuous["C15.template-changed-during-canary"]++
+			}
 		}
 		s.RunTask(CtrlEDS, key)
 	}
